@@ -286,10 +286,16 @@ func (c *Collection) PullID(ctx context.Context, id string, opts ...ReadOption) 
 		id = c.idInterceptor(id)
 	}
 
+	// Subscribe before returning so that changes made after this call returns are not missed.
+	// The subscription has its own context so that it ends when we stop listening, e.g. because the item was removed.
+	ctx, cancel := context.WithCancel(ctx)
+	changes := c.Pull(ctx, opts...)
+
 	send := make(chan *ValueChange)
 	go func() {
 		defer close(send)
-		for change := range c.Pull(ctx, opts...) {
+		defer cancel()
+		for change := range changes {
 			if change.Id != id {
 				continue
 			}
